@@ -14,7 +14,7 @@ import json
 
 from harness import core, tri_drive
 
-MODULES = ["AdaptiveProofs.Props.C03"]
+MODULES = ["AdaptiveProofs.Props.C03", "AdaptiveProofs.Props.C03Dim3"]
 
 PARTIAL = [
     "tiles_hull_statement (facets in <= 2 simplices, no orphan vertex, the simplices cover the hull without overlap, Delaunay for "
